@@ -1,5 +1,21 @@
 """Static class zoo for C20 (sync_trait)."""
-from traits.api import HasTraits, Int, Str, List
+from traits.api import HasTraits, Int, Str, List, TraitType
+
+from .values import CUR
+
+
+class Checked(TraitType):
+    """Int-like trait whose validator is a callback point (fault site)."""
+    default_value = 0
+    info_text = "a checked int"
+
+    def validate(self, object, name, value):
+        env = CUR["env"]
+        if env is not None:
+            env.point("validator:c", getattr(object, "uid", None))
+        if type(value) is int:
+            return value
+        self.error(object, name, value)
 
 
 class S(HasTraits):
@@ -10,9 +26,12 @@ class S(HasTraits):
     t = Str()
     l = List(Int)
     k = List(Int)
+    c = Checked()
+    c2 = Checked()
 
     def __repr__(self):
         return "S%d" % self.uid
 
 
-GROUPS = {"n": "int", "m": "int", "s": "str", "t": "str", "l": "list", "k": "list"}
+GROUPS = {"n": "int", "m": "int", "s": "str", "t": "str", "l": "list", "k": "list",
+          "c": "chk", "c2": "chk"}
